@@ -11,8 +11,15 @@
 //   every constituent that reports a calculated value in the explored model must report the same value there.
 //   Structures: stored data may only contain elements that are valid for the current base interpretations,
 //   and a base change must leave exactly the pruned data (transition check).
+//   A constituent marked calculated with outcome INCALCULABLE is judged against a second fresh model on which exactly
+//   the same set of constituents is calculated (class incalculable).
 //   A violating state is attributed to the FIRST operation of its history after which the oracle fails
-//   (signature C11:stale-after-<Op>:<class>), so distinct root causes get distinct signatures.
+//   (signature C11:stale-after-<Op>:<class>), so distinct root causes get distinct signatures. States on which
+//   incremental analysis disagrees with analysis from scratch (C07's subject: definition cycles) are counted, not judged;
+//   a violation first seen after such a state carries the suffix +after-unjudged-state.
+//   Two library calls that abort only in states created by a C11 defect (PruneStructure on an untyped structure that
+//   kept data; to_json of a value that contradicts its typification) are reported as violations without being executed,
+//   so that the exploration stays exhaustive on the unchanged tree (--execute-aborting-ops 1 executes the first).
 // Oracle of mode json: j1 = json(model); loaded <- j1; j2 = json(loaded); j2 == j1 as JSON values, plus
 //   field-by-field observable content (items, parse result, data, text interpretation, statements, calculated flags).
 #include "engine/mc.hpp"
@@ -263,6 +270,30 @@ bool valid_for(const RSModel& m, const StructuredData& d, const ccl::rslang::Typ
     return true;
   }
 }
+// deep shape check: does a value have the structure of a typification (every element of every set)
+bool shape_ok(const StructuredData& d, const ccl::rslang::Typification& t) {
+  if (d.Structure() != t.Structure()) return false;
+  switch (t.Structure()) {
+  default:
+  case ccl::rslang::StructureType::basic: return true;
+  case ccl::rslang::StructureType::collection:
+    for (const auto& e : d.B()) if (!shape_ok(e, t.B().Base())) return false;
+    return true;
+  case ccl::rslang::StructureType::tuple:
+    if (d.T().Arity() != t.T().Arity()) return false;
+    for (auto i = ccl::rslang::Typification::PR_START; i < d.T().Arity() + ccl::rslang::Typification::PR_START; ++i)
+      if (!shape_ok(d.T().Component(i), t.T().Component(i))) return false;
+    return true;
+  }
+}
+bool mentions(const std::string& definition, const std::string& alias) {
+  for (size_t p = definition.find(alias); p != std::string::npos; p = definition.find(alias, p + 1)) {
+    const size_t e = p + alias.size();
+    const bool startOk = p == 0 || !(isalnum(static_cast<unsigned char>(definition[p - 1])));
+    if (startOk && (e >= definition.size() || !isdigit(static_cast<unsigned char>(definition[e])))) return true;
+  }
+  return false;
+}
 // expected stored data of a structure after a base change: top-level elements that are still valid
 std::string pruned_canon(const RSModel& after, const StructuredData& before, const ccl::rslang::Typification& t) {
   if (!before.IsCollection()) return valid_for(after, before, t) ? canon(before) : "none";
@@ -316,7 +347,9 @@ OracleOut oracle(const RSModel& m) {
   for (const auto uid : m.List()) {
     if (m.GetRS(uid).type != CstType::structured) continue;
     const auto data = m.Values().SDataFor(uid);
-    if (!data.has_value()) continue;
+    // "same structure data" includes "none": a well-typed structure without data cannot be produced through the public
+    // setters (they install the default empty set), so it is mirrored directly in the fresh model's storage
+    if (!data.has_value()) { f->dataFacet->storage->rsData.erase(uid); continue; }
     const auto* typ = m.GetParse(uid).Typification();
     if (typ == nullptr) {
       out.stale.push_back({ "structure-untyped", m.GetRS(uid).alias, canon(data), "none (structure has no typification)" });
@@ -332,6 +365,7 @@ OracleOut oracle(const RSModel& m) {
     }
   }
   f->Calculations().RecalculateAll();
+  std::vector<EntityUID> incalc;   // calculated, reported INCALCULABLE, but calculable when everything is recalculated
   std::map<std::string, int> classes;
   for (const auto uid : m.List()) {
     const auto type = m.GetRS(uid).type;
@@ -341,7 +375,7 @@ OracleOut oracle(const RSModel& m) {
     if (!m.Calculations().WasCalculated(uid)) continue;
     const auto fst = f->Calculations()(uid);
     if (!has_value_status(st)) {
-      if (st == EvalStatus::INCALCULABLE && has_value_status(fst)) out.incalcButFreshValue++;
+      if (st == EvalStatus::INCALCULABLE && has_value_status(fst)) { out.incalcButFreshValue++; incalc.push_back(uid); }
       continue;
     }
     out.compared++;
@@ -353,6 +387,25 @@ OracleOut oracle(const RSModel& m) {
     } else { obs += canon(m.Values().SDataFor(uid)); exp += canon(f->Values().SDataFor(uid)); }
     if (!has_value_status(fst)) out.stale.push_back({ "status", m.GetRS(uid).alias, obs, exp });
     else if (obs != exp) out.stale.push_back({ "value", m.GetRS(uid).alias, obs, exp });
+  }
+  // A calculation outcome INCALCULABLE is outdated as well if calculating exactly the constituents the model says were
+  // calculated (dependencies first) succeeds: replay that on a second fresh model.
+  if (!incalc.empty() && out.stale.empty()) {
+    auto g = rebuild_from_scratch(m);
+    for (const auto uid : m.List())
+      if (m.GetRS(uid).type == CstType::structured) {
+        if (const auto data = m.Values().SDataFor(uid); !data.has_value()) g->dataFacet->storage->rsData.erase(uid);
+        else if (canon(g->Values().SDataFor(uid)) != canon(data)) g->Values().SetStructureData(uid, data.value());
+      }
+    for (const auto uid : g->RSLang().Graph().TopologicalOrder())
+      if (m.Calculations().WasCalculated(uid)) g->Calculations().Calculate(uid);
+    for (const auto uid : incalc) {
+      const auto gst = g->Calculations()(uid);
+      if (!has_value_status(gst)) continue;
+      out.stale.push_back({ "incalculable", m.GetRS(uid).alias, "INCALCULABLE",
+                            std::string(status_name(gst)) + " " + (ccl::semantic::IsStatement(m.GetRS(uid).type) ? std::string(g->Values().StatementFor(uid).value_or(false) ? "true" : "false") : canon(g->Values().SDataFor(uid))) +
+                            " (calculating the same set of constituents on a fresh model)" });
+    }
   }
   for (auto& [k, v] : classes) out.statusClass += k + "x" + std::to_string(v) + " ";
   return out;
@@ -385,6 +438,7 @@ struct ModelSys {
   bool jsonMode{ false };
   std::vector<int> seedList;   // seed codes: kind + 10 * uid policy
   bool dump{ getenv("VERIF_DUMP") != nullptr };
+  std::map<std::string, int> verdictCache;   // history prefix -> 0 clean / 1 stale / 2 not judged (attribution only)
 
   int seeds() const { return static_cast<int>(seedList.size()); }
 
@@ -498,10 +552,27 @@ struct ModelSys {
     return "?";
   }
 
-  // returns: 1 performed, 0 refused
+  // A base-set change prunes every dependent structure; the unchanged library aborts there (assert / bad_optional_access in
+  // rsValuesFacet::PruneStructure) when such a structure holds data but has lost its typification - a state that exists only as
+  // a consequence of a C11 defect. By default the operation is then NOT executed (it is reported once per transition as
+  // C11:base-change-aborts-on-untyped-structure) so that the exploration stays exhaustive; --execute-aborting-ops 1 runs it.
+  bool executeAbortingOps{ false };
+  std::string would_abort(const Obj& m, const Op& o, EntityUID target) const {
+    if (executeAbortingOps || !(o.k == ADD_ELEM || o.k == SET_TEXT || o.k == RESET_DATA)) return {};
+    if (!m.Contains(target) || !ccl::semantic::IsBaseSet(m.GetRS(target).type)) return {};
+    for (const auto uid : m.List()) {
+      const auto& rs = m.GetRS(uid);
+      if (rs.type == CstType::structured && m.GetParse(uid).Typification() == nullptr && m.Values().SDataFor(uid).has_value() && mentions(rs.definition, m.GetRS(target).alias))
+        return rs.alias;
+    }
+    return {};
+  }
+
+  // returns: 1 performed, 0 refused, -1 not executed (would abort, see above)
   int perform(Obj& m, const Op& o) {
     const auto ord = order(m);
     const EntityUID target = (o.a >= 0 && o.a < static_cast<int>(ord.size())) ? ord[static_cast<size_t>(o.a)] : EntityUID{ 4242 };
+    if (!would_abort(m, o, target).empty()) return -1;
     switch (o.k) {
     case ADD_ELEM: return m.Values().AddBasicElement(target, "c").has_value() ? 1 : 0;
     case SET_TEXT: return m.Values().SetBasicText(target, text_of(o.b)) ? 1 : 0;
@@ -529,14 +600,21 @@ struct ModelSys {
                             ccl::semantic::IsBaseSet(m.GetRS(ord[static_cast<size_t>(o.a)]).type);
     if (baseChange && !jsonMode)
       for (const auto uid : ord) if (m.GetRS(uid).type == CstType::structured && m.GetParse(uid).Typification() != nullptr)
-        if (const auto d = m.Values().SDataFor(uid); d.has_value()) pre.push_back({ uid, d.value() });
+        if (const auto d = m.Values().SDataFor(uid); d.has_value() && valid_for(m, d.value(), *m.GetParse(uid).Typification()))
+          pre.push_back({ uid, d.value() });   // data that was already invalid before the change is the state oracle's business
     const int done = perform(m, o);
-    c->rep.outcome(std::string(kind_name(o.k)) + (done ? ":done" : ":refused"));
+    c->rep.outcome(std::string(kind_name(o.k)) + (done > 0 ? ":done" : done == 0 ? ":refused" : ":not-executed"));
+    if (done < 0) {
+      c->rep.count("ops_not_executed_would_abort");
+      if (!jsonMode) c->fail("C11:base-change-aborts-on-untyped-structure", "a structure kept data although it lost its typification; this base-set change would abort in rsValuesFacet::PruneStructure (operation not executed, --execute-aborting-ops 1 to run it): " + hd);
+      return;
+    }
     if (done == 0) {
       c->rep.count("checks");
       if (model_key(m) != before) c->fail(std::string(jsonMode ? "C10" : "C11") + ":refused-op-changed-state:" + kind_name(o.k), "operation reported refusal but the model changed: " + hd);
     }
     for (const auto& p : pre) {
+      if (done <= 0) break;   // a refused (no-op) change prunes nothing
       if (!m.Contains(p.uid)) continue;
       const auto* typ = m.GetParse(p.uid).Typification();
       if (typ == nullptr) continue;
@@ -565,12 +643,18 @@ struct ModelSys {
     std::istringstream is(replayText); int seed = 0; is >> seed; std::vector<Op> ops; int k, a, b, cc;
     while (is >> k >> a >> b >> cc) { Op op; op.k = k; op.a = a; op.b = b; op.c = cc; ops.push_back(op); }
     bool unjudgedBefore = false;   // an earlier state of the history was not judged (schema divergence, C07 subject)
+    std::string prefix = std::to_string(seed);
     for (size_t j = 0; j <= ops.size(); ++j) {
-      auto o = fresh(seed);
-      for (size_t i = 0; i < j; ++i) perform(*o, ops[i]);
-      const auto r = oracle(*o);
-      if (r.diverged) { unjudgedBefore = true; continue; }
-      if (!r.stale.empty()) return std::string(j == 0 ? "seed" : kind_name(ops[j - 1].k)) + (unjudgedBefore ? "+after-unjudged-state" : "");
+      if (j > 0) prefix += " " + std::to_string(ops[j - 1].k) + " " + std::to_string(ops[j - 1].a) + " " + std::to_string(ops[j - 1].b) + " " + std::to_string(ops[j - 1].c);
+      auto it = verdictCache.find(prefix);   // per-process memo: prefixes are shared by many states of a shard
+      if (it == verdictCache.end()) {
+        auto o = fresh(seed);
+        for (size_t i = 0; i < j; ++i) perform(*o, ops[i]);
+        const auto r = oracle(*o);
+        it = verdictCache.emplace(prefix, r.diverged ? 2 : r.stale.empty() ? 0 : 1).first;
+      }
+      if (it->second == 2) { unjudgedBefore = true; continue; }
+      if (it->second == 1) return std::string(j == 0 ? "seed" : kind_name(ops[j - 1].k)) + (unjudgedBefore ? "+after-unjudged-state" : "");
     }
     return "unattributed";
   }
@@ -591,7 +675,8 @@ struct ModelSys {
       const std::string cls = f.cls.rfind("structure", 0) == 0 ? "structure" : f.cls;
       if (!seen.insert(cls).second) continue;
       c.fail("C11:stale-after-" + who + ":" + cls,
-             f.alias + (cls == "structure" ? " stores structure data that is not valid for the current model (" + f.cls + ")" : " reports a calculated value that differs from recalculation from scratch"),
+             f.alias + (cls == "structure" ? " stores structure data that is not valid for the current model (" + f.cls + ")" :
+                        cls == "incalculable" ? " is marked calculated with outcome INCALCULABLE although its dependencies now have values" : " reports a calculated value that differs from recalculation from scratch"),
              f.observed, f.expected);
     }
   }
@@ -622,6 +707,18 @@ struct ModelSys {
   void check_json(Obj& m, Ctx& c, const std::string& hd) {
     using OJ = nlohmann::ordered_json;
     c.rep.count("evaluations");
+    // to_json aborts (assert in SDCompact::FromSData) on a stored value that does not have the shape of the constituent's
+    // typification - a state that exists only as a consequence of C11 (stale value after a definition edit): report, do not crash
+    for (const auto uid : m.List()) {
+      if (!ccl::semantic::IsRSObject(m.GetRS(uid).type)) continue;
+      const auto* typ = m.GetParse(uid).Typification();
+      const auto data = m.Values().SDataFor(uid);
+      if (typ != nullptr && data.has_value() && !shape_ok(data.value(), *typ)) {
+        c.rep.outcome("not-serialised: stored value does not fit the typification");
+        c.fail("C10:model-value-does-not-fit-typification", m.GetRS(uid).alias + " stores a value whose shape contradicts its typification (stale value, see C11); to_json would abort in SDCompact::FromSData - not executed", canon(data), typ->ToString());
+        return;
+      }
+    }
     const OJ j1(m);
     RSModel loaded;
     j1.get_to(loaded);
@@ -657,7 +754,7 @@ struct ModelSys {
         const auto dot = k.find('.');
         const std::string field = dot == std::string::npos ? k : k.substr(dot + 1);
         const bool absentBefore = v == "none" || v == "null", absentAfter = got == "none" || got == "null" || got == "<missing>";
-        const std::string how = absentBefore ? "appeared" : absentAfter ? "lost" : "changed";
+        const std::string how = field == "status" ? got + "-instead-of-" + v : absentBefore ? "appeared" : absentAfter ? "lost" : "changed";
         if (reported.insert(field).second) c.fail("C10:model-reload-field:" + field + ":" + how, "observable content differs after save/load: " + k, got, v);
       }
     }
@@ -684,6 +781,7 @@ int main(int argc, char** argv) {
   const double t0 = now_s();
   Result res; res.harness = "h_model"; res.mode = opt.mode; res.tier = opt.tier;
   ModelSys sys;
+  sys.executeAbortingOps = opt.num("execute-aborting-ops", 0) != 0;
   // phase A: wide alphabet, all seeds, depth dA; phase B: core alphabet, deeper, fewer seeds (same op encoding, same seed table)
   // seed table (indices are stable across tiers): M0 M1 M2 with ascending uids, then the same with descending uids
   std::vector<int> table;
@@ -692,9 +790,9 @@ int main(int argc, char** argv) {
     res.property = "C11";
     table = { 0, 1, 2, 10, 11, 12 };
     depthA = static_cast<int>(opt.num("depth", opt.thorough() ? 3 : 2));
-    seedsA = static_cast<int>(opt.num("seeds", opt.thorough() ? 6 : 4));
+    seedsA = static_cast<int>(opt.num("seeds", 4));
     depthB = static_cast<int>(opt.num("depth-core", opt.thorough() ? 4 : 3));
-    seedsB = static_cast<int>(opt.num("seeds-core", opt.thorough() ? 3 : 3));
+    seedsB = static_cast<int>(opt.num("seeds-core", 3));
   } else if (opt.mode == "json") {
     res.property = "C10";
     sys.jsonMode = true;
@@ -729,7 +827,7 @@ int main(int argc, char** argv) {
       sys.seedList = table;
     };
     if (opt.mode == "stale") {
-      run_phase(ModelSys::FULL, depthA, seedsA, "stale/full", depthB >= 0 && seedsB > 0 ? 0.5 : 1.0);
+      run_phase(ModelSys::FULL, depthA, seedsA, "stale/full", depthB >= 0 && seedsB > 0 ? 0.6 : 1.0);
       run_phase(ModelSys::CORE, depthB, seedsB, "stale/core", 1.0);
     } else {
       run_phase(ModelSys::JSON, depthA, seedsA, "json", 1.0);
@@ -753,7 +851,8 @@ int main(int argc, char** argv) {
                "non-trivial = states with at least one constituent reporting a calculated value; a violating state is attributed to the first operation of its history after which the oracle fails";
     res.assumptions = { "base sets have at most 3 elements, keys 1..3; structure data from a 9-value menu; definitions from a 20-expression menu",
                         "cyclic / self-referential definitions are explored, but states where incremental analysis disagrees with analysis from scratch (property C07) are counted and not judged",
-                        "INCALCULABLE is not a value: a constituent that reports INCALCULABLE although recalculation would succeed is counted (info_*), not asserted",
+                        "a calculated constituent reporting INCALCULABLE is judged only against a fresh model on which exactly the same set of constituents is calculated (signature class incalculable); INCALCULABLE merely because a dependency was never calculated is legitimate and only counted (info_*)",
+                        "a well-typed structure that holds no data at all (reachable when an insertion repairs a dangling mention) is mirrored as 'no data' in the fresh model; that a reload turns it into the empty set is reported by C10 (mode json)",
                         "the calculator's internal parser state is not part of the key (history independence of analysers is property C18)",
                         "clang 14 + libstdc++ 12, ASan+UBSan build, uid hook H1" };
   } else {
